@@ -11,25 +11,35 @@ open TH.Lts.Queue
     receive call, which returned empty-handed (`byToken`); so n unblock calls release n calls. -/
 theorem token_conservation (s : State) (h : Reachable s) :
     s.tokensPushed = s.tokensTaken + tokens s.queue ∧
-    (s.log.filter (fun r => r.res == .byToken)).length = s.tokensTaken := by
-  sorry
+    (s.log.filter (fun r => r.res == .byToken)).length = s.tokensTaken :=
+  token_conservation_inv s h
 
 /-- tokens never discard, duplicate or reorder requests (same statement as C07, which holds in the
     presence of any number of unblock calls). -/
 theorem tokens_preserve_requests (s : State) (h : Reachable s) :
-    s.taken ++ elems s.queue = s.pushed := by
-  sorry
+    s.taken ++ elems s.queue = s.pushed :=
+  exactly_once_inv s h
 
 /-- try_recv never blocks: its single step always ends the call. -/
 theorem try_recv_never_blocks (s : State) (t cs dur : Nat) (e : Bool)
     (hp : phaseOf s t = .ready .tryPop cs dur e) (ht : t < s.phases.length) :
     ∃ s', step s (.look t) = some s' ∧ phaseOf s' t = .idle := by
-  sorry
+  refine ⟨lookReady s t .tryPop cs dur e, ?_, ?_⟩
+  · simp only [step, hp]
+  · have key : ∀ s' : State, s'.phases = (setPhase s t .idle).phases → phaseOf s' t = .idle := by
+      intro s' hs'
+      rw [phaseOf_congr hs' t]
+      exact getD_setP_self s.phases t .idle
+    unfold lookReady
+    split
+    · exact key _ rfl
+    · exact key _ rfl
+    · exact key _ rfl
 
 /-- a blocking `recv` returns empty-handed only through a token. -/
 theorem recv_empty_only_by_token (s : State) (h : Reachable s) :
-    ∀ r ∈ s.log, r.call = .pop → r.res ≠ .empty := by
-  sorry
+    ∀ r ∈ s.log, r.call = .pop → r.res ≠ .empty :=
+  recv_empty_inv s h
 
 /-- recv_timeout bounds, zero-latency executions (time passes only while nobody is runnable and
     never beyond a pending deadline): a `recv_timeout(T)` with `T ≥ 1 ms` that returns empty-handed
@@ -37,8 +47,8 @@ theorem recv_empty_only_by_token (s : State) (h : Reachable s) :
     after it was called. -/
 theorem recv_timeout_bounds (ls : List Label) (s : State) (h : runZL {} ls = some s) :
     ∀ r ∈ s.log, ∀ T, r.call = .popTimeout T → r.res = .empty → slackNs ≤ T →
-      T - slackNs < r.retTime - r.callStart ∧ r.retTime - r.callStart < 2 * T := by
-  sorry
+      T - slackNs < r.retTime - r.callStart ∧ r.retTime - r.callStart < 2 * T :=
+  recv_timeout_bounds_inv ls s h
 
 example : (run {} [.call 0 .pop, .look 0, .unblock (some 0), .push 5 none, .look 0]).map
     (fun s => (s.log.map (·.res), elems s.queue, s.tokensTaken)) = some ([.byToken], [5], 1) := by decide
